@@ -49,7 +49,12 @@ func (c11) Gen(r *Rng, tier string, run int) *Trace {
 			}
 			var ms []methodInfo
 			for _, m := range methodsInfo(kind) {
-				if c := classOf(m.Name); c == "query" || c == "unknown" {
+				// only DECLARED queries are required to be write- and lock-free.
+				// Classifying an undeclared method by what one call does is
+				// unsound: a guarded mutator that happens to be a no-op for the
+				// chosen arguments would be taken for a query (C09's fence and
+				// C17's burst cover undeclared methods soundly).
+				if classOf(m.Name) == "query" {
 					ms = append(ms, m)
 				}
 			}
